@@ -60,6 +60,16 @@ Run(newA) ==
     /\ a' = newA
     /\ UNCHANGED <<phase, b, g, grp, valid, initok, diff, errA, errB>>
 
+(* Another pair of chains (the next run of a script): everything starts over.                        *)
+Restart(newA) ==
+    /\ phase \in {"refused", "compared", "stepping"}
+    /\ DOMAIN newA = Facets
+    /\ phase' = "run"
+    /\ a' = newA /\ b' = newA /\ g' = newA
+    /\ valid' = TRUE /\ initok' = TRUE /\ diff' = {}
+    /\ errA' = "none" /\ errB' = "none"
+    /\ UNCHANGED grp
+
 (* app.ExportAppStateAndValidators at the committed height; ok = it returned without error/panic,   *)
 (* v = every module's ValidateGenesis accepted the exported section.  In the abstract the exported   *)
 (* genesis IS chain A's observable state.                                                            *)
